@@ -124,43 +124,66 @@ def readable_names(repo: Repo, R):
     if scal is None:
         raise AnalysisError(f"idiom-unknown: `scalars` list in {fi.site}")
     has_str = any("str" in s for s in scal)
-    joins = [c for c, b in pat.find("$SEP.join($G)", fi.node) if isinstance(b["G"], (ast.GeneratorExp, ast.ListComp))]
+    # the joined collection, by role: a comprehension, or a list filled by one loop of appends
+    joins = []
+    for c, b in pat.find("$SEP.join($G)", fi.node):
+        els = _collection_elements(fi.node, b["G"])
+        if els is not None:
+            joins.append((c, els))
     if len(joins) != 1:
         raise AnalysisError(f"idiom-unknown: readable-name join in {fi.site}")
-    g = joins[0].args[0]
-    elt = g.elt
-    rendered = None
-    if isinstance(elt, ast.JoinedStr):
-        vals = [v for v in elt.values if isinstance(v, ast.FormattedValue)]
-        if len(vals) == 2:
-            rendered = vals[1]
-    safe = False
+    join_call, (elts, gen_iter, gen_plain) = joins[0]
+    joins = [join_call]
+    safe = bool(elts)
     how = "values are inserted verbatim (str())"
-    if rendered is not None:
-        if rendered.conversion == ord("r"):
-            safe, how = True, "values rendered with !r"
-        v = rendered.value
-        if isinstance(v, ast.Call):
-            nm = dotted(v.func) or ""
-            if nm in ("repr", "json.dumps"):
-                safe, how = True, f"values rendered with {nm}()"
-            else:
-                r = repo.resolve_call(v, fi)
-                if isinstance(r, FuncInfo):
-                    # helper must quote strings: `if isinstance(val, str): return repr(val)`
-                    a = r.node.args.args[0].arg
-                    q = any(isinstance(n, ast.If) and ast.unparse(n.test) == f"isinstance({a}, str)" and isinstance(n.body[-1], ast.Return) and ast.unparse(n.body[-1].value) in (f"repr({a})", f"json.dumps({a})") for n in au.walk_no_nested(r.node))
-                    # every other value must be rendered without loss: str()/repr() of the value itself, no format spec
-                    rets = [ast.unparse(n.value) for n in au.walk_no_nested(r.node) if isinstance(n, ast.Return) and n.value is not None]
-                    lossy = [x for x in rets if x not in (f"repr({a})", f"str({a})", f"json.dumps({a})")]
-                    if q and lossy:
-                        how = f"values rendered by `{r.name}`, which renders some values lossily: `{lossy[0]}`"
-                    elif q:
-                        safe, how = True, f"values rendered by `{r.name}`, which quotes and escapes strings and renders everything else with str()"
-                    else:
-                        how = f"values rendered by `{r.name}`, which does not quote strings"
-    if rendered is not None and rendered.format_spec is not None:
-        safe, how = False, f"values are rendered with a format specification `{ast.unparse(rendered.format_spec)}` (lossy)"
+    hows = []
+    for elt, conds in elts:
+        rendered = None
+        if isinstance(elt, ast.JoinedStr):
+            vals = [v for v in elt.values if isinstance(v, ast.FormattedValue)]
+            if len(vals) == 2:
+                rendered = vals[1]
+        this_safe = False
+        h_ = "values are inserted verbatim (str())"
+        if rendered is not None:
+            if rendered.conversion == ord("r"):
+                this_safe, h_ = True, "values rendered with !r"
+            v = rendered.value
+            if isinstance(v, ast.Call):
+                nm = dotted(v.func) or ""
+                # is the value known to be a string / not a string on this path?
+                is_str = None
+                for t_, pol_ in conds:
+                    rr = au.isinstance_classes(t_) if isinstance(t_, ast.Call) else None
+                    if rr and {ast.unparse(c_) for c_ in rr[1]} == {"str"} and v.args and ast.unparse(rr[0]) == ast.unparse(v.args[0]):
+                        is_str = pol_
+                if nm in ("repr", "json.dumps"):
+                    this_safe, h_ = True, f"values rendered with {nm}()"
+                elif nm == "str" and is_str is False:
+                    this_safe, h_ = True, "non-string values rendered with str() (strings are quoted on the other path)"
+                else:
+                    r = repo.resolve_call(v, fi)
+                    if isinstance(r, FuncInfo):
+                        # helper must quote strings: `if isinstance(val, str): return repr(val)`
+                        a = r.node.args.args[0].arg
+                        q = any(isinstance(n, ast.If) and ast.unparse(n.test) == f"isinstance({a}, str)" and isinstance(n.body[-1], ast.Return) and ast.unparse(n.body[-1].value) in (f"repr({a})", f"json.dumps({a})") for n in au.walk_no_nested(r.node))
+                        # every other value must be rendered without loss: str()/repr() of the value itself, no format spec
+                        rets = [ast.unparse(n.value) for n in au.walk_no_nested(r.node) if isinstance(n, ast.Return) and n.value is not None]
+                        lossy = [x for x in rets if x not in (f"repr({a})", f"str({a})", f"json.dumps({a})")]
+                        if q and lossy:
+                            h_ = f"values rendered by `{r.name}`, which renders some values lossily: `{lossy[0]}`"
+                        elif q:
+                            this_safe, h_ = True, f"values rendered by `{r.name}`, which quotes and escapes strings and renders everything else with str()"
+                        else:
+                            h_ = f"values rendered by `{r.name}`, which does not quote strings"
+        if rendered is not None and rendered.format_spec is not None:
+            this_safe, h_ = False, f"values are rendered with a format specification `{ast.unparse(rendered.format_spec)}` (lossy)"
+        safe = safe and this_safe
+        hows.append(h_)
+        if not this_safe:
+            how = h_
+    if safe:
+        how = "; ".join(sorted(set(hows)))
     R.check(safe or not has_str, rule, key_of(fi, "string-values"), fi.at(joins[0]),
             f"readable branch accepts {scal}; {how}",
             why="(a='x b=y', b='z') and (a='x', b='y b=z') — or None and 'None', or two floats that agree in their first digits — give one name for two different modules, which the exporter then refuses")
@@ -169,7 +192,7 @@ def readable_names(repo: Repo, R):
         if isinstance(n, ast.If) and au.cmp_norm(n.test) and n.body and isinstance(n.body[-1], ast.Return) and isinstance(n.body[-1].value, ast.Name) and f"len({n.body[-1].value.id})" in ast.unparse(n.test) and shared.prov_text(fi.node, n.body[-1].value) == shared.prov_text(fi.node, joins[0]):
             lim = n
     R.check(lim is not None, rule, key_of(fi, "length-limit"), fi.site, f"the readable name is used only below the length limit (`{ast.unparse(lim.test) if lim else None}`), otherwise the hash", why="over-long module names reach the netlist")
-    keys = len(g.generators) == 1 and not g.generators[0].ifs and shared.prov_text(fi.node, g.generators[0].iter) in ("params.__params__.keys()", "params.__params__", "list(params.__params__)", "list(params.__params__.keys())")
+    keys = gen_plain and shared.prov_text(fi.node, gen_iter) in ("params.__params__.keys()", "params.__params__", "list(params.__params__)", "list(params.__params__.keys())")
     R.check(keys, rule, key_of(fi, "all-params"), fi.site, f"every parameter of the class takes part in the name, in declaration order: {keys}", why="two calls differing in an omitted parameter share a name")
     fr = repo.func(F_GENERATOR, "run")
     sfx = pat.find("$M.name += '(' + _unique_name(call.params) + ')'", fr.node)
@@ -190,7 +213,7 @@ def hashed_names(repo: Repo, R):
         R.check(not bad, rule, key_of(f, "no-address-or-salted-hash"), f.site, f"{f.name}: no hash()/id()/pickle/default repr on the naming path" if not bad else f"{f.name} uses `{bad[0]}`",
                 why="names of generated modules change between processes (hash randomisation / addresses)")
     js = bool(pat.find("json.dumps(params, indent=4, default=hdl21_naming_encoder)", fi.node)) or bool(pat.find("json.dumps(params, *$_)", fi.node))
-    md = bool(pat.find("hashlib.new('md5', usedforsecurity=False)", fi.node)) or bool(pat.find("hashlib.md5(*$_)", fi.node)) or bool(pat.find("hashlib.sha256(*$_)", fi.node))
+    md = digest_over_json(fi)[0]
     dig = [r for r in shared.returns_of(fi.node) if pat.match("$H.hexdigest()", r.value) is not None]
     whole = len(dig) == 1 and len(shared.returns_of(fi.node)) == 2
     R.check(js and md and whole, rule, key_of(fi, "digest"), fi.site, f"non-readable names are a hashlib digest ({md}) of the JSON text of the parameters ({js}), used whole ({whole})", why="hashed names collide (truncated digest) or differ between processes")
@@ -323,3 +346,47 @@ def generators_return_their_own(repo: Repo, R):
                     why="calls with unequal parameters return one and the same module, and a hand-written module is renamed in place after the first call's parameters")
     if n < 3:
         raise AnalysisError(f"anchor-vanished: only {n} generator functions found in hdl21/generators.py")
+
+
+
+def digest_over_json(fi: FuncInfo):
+    """(ok, utf8): one hashlib digest object (any spelling of its construction), fed — through the constructor or
+    update() — the JSON text of the parameters; utf8: the text is turned into bytes as UTF-8."""
+    ctors = [c for c in au.calls_in(fi.node) if (dotted(c.func) or "") in ("hashlib.md5", "hashlib.sha1", "hashlib.sha256", "hashlib.blake2b")
+             or ((dotted(c.func) or "") == "hashlib.new" and c.args and isinstance(c.args[0], ast.Constant) and c.args[0].value in ("md5", "sha1", "sha256", "blake2b"))]
+    fed = []
+    for c in ctors:
+        data = c.args[1:] if (dotted(c.func) or "") == "hashlib.new" else c.args
+        fed += [shared.prov(fi.node, a) for a in data]
+    fed += [shared.prov(fi.node, c.args[0]) for c in au.calls_in(fi.node) if isinstance(c.func, ast.Attribute) and c.func.attr == "update" and c.args]
+    ok = len(ctors) == 1 and len(fed) == 1 and "json.dumps(params" in ast.unparse(fed[0])
+    utf8 = ok and any(pat.match(p_, fed[0]) is not None for p_ in ("bytes(json.dumps(params, *$_), encoding='utf-8')", "bytes(json.dumps(params, *$_), 'utf-8')", "json.dumps(params, *$_).encode('utf-8')", "json.dumps(params, *$_).encode()", "json.dumps(params, *$_).encode(encoding='utf-8')"))
+    return ok, utf8
+
+
+
+def _collection_elements(fn: ast.AST, coll: ast.AST):
+    """What a collection expression holds, for the two ways of building one: a comprehension `[E for x in I]`, or a
+    list that starts empty and is filled by `name.append(E)` inside one `for x in I` loop.
+    -> ([(E alternative, conditions)], I, plain) — plain: one loop, no filter / break / continue; None if neither."""
+    e = shared.prov(fn, coll)
+    if isinstance(e, (ast.GeneratorExp, ast.ListComp)):
+        plain = len(e.generators) == 1 and not e.generators[0].ifs
+        return ([(e.elt, [])], e.generators[0].iter, plain)
+    if isinstance(coll, ast.Name):
+        inits = [st for st in au.walk_no_nested(fn) if isinstance(st, ast.Assign) and len(st.targets) == 1 and isinstance(st.targets[0], ast.Name) and st.targets[0].id == coll.id]
+        if len(inits) != 1 or ast.unparse(inits[0].value) not in ("[]", "list()"):
+            return None
+        apps = [c for c in au.calls_in(fn) if isinstance(c.func, ast.Attribute) and c.func.attr == "append" and isinstance(c.func.value, ast.Name) and c.func.value.id == coll.id and len(c.args) == 1]
+        others = [n for n in au.walk_no_nested(fn) if isinstance(n, ast.Attribute) and isinstance(n.value, ast.Name) and n.value.id == coll.id and n.attr not in ("append",)]
+        if len(apps) != 1 or others:
+            return None
+        loop = shared.enclosing(fn, apps[0], (ast.For,))
+        if loop is None or loop.orelse or shared.enclosing(fn, loop, (ast.For, ast.While)) is not None:
+            return None
+        outer = len(shared.path_conditions(fn, loop))
+        inner = shared.path_conditions(fn, apps[0])[outer:]
+        plain = not inner and not any(isinstance(n, (ast.Break, ast.Continue, ast.Return)) for n in ast.walk(loop))
+        alts = shared.alternatives(fn, apps[0].args[0], list(inner), at=apps[0])
+        return ([(v, shared.resolved_conditions(fn, c)) for v, c in alts], loop.iter, plain)
+    return None
